@@ -195,6 +195,8 @@ class PolarsRunSchemaComponentChecks(Contract):
             added = list(cr.appended) if isinstance(cr, SymSeq) else None
             if oc == "returns":
                 out["no_result_invented_for_a_passing_component"] = added == []
+                # (as in the pandas twin) a component with drop_invalid_rows returns the filtered frame and reports nothing; its result is discarded here
+                out["a_returning_component_has_validated_every_row"] = core.Not(fld(comp, "drop_invalid_rows"))
             elif oc == "SchemaError":
                 exc = p.ghost["component_exc"]
                 ok = added is not None and len(added) == 1 and isinstance(added[0], Obj) and added[0].cls is CoreCheckResult
